@@ -62,7 +62,9 @@ var binOps = []string{"|", ",", "+", "-", "*", "/", "%", "//", "==", "!=", "<", 
 
 var atoms = []string{".", ".a", ".b", ".c", ".x", ".a.b", ".[0]", ".[]", "..", "0", "1", "-1", "2", "3.5", "0x1F", "true", "false", "null",
 	`"a"`, `"b"`, `""`, `"a,b"`, `","`, `"\(.a) x"`, "[]", "{}", "[1,2,3]", `{"a":1}`, `["a","b"]`, `[["a"]]`,
-	`[{"a":"b"}]`, `[{"b":"a"}]`, `{"a":"b","b":"a"}`, `[{"a":"a"},{"b":"b","a":"b"}]`, `{"x":{"a":"b"},"y":{"b":"a"}}`, "$x", `"(a+)"`, `"2006-01-02"`}
+	`[{"a":"b"}]`, `[{"b":"a"}]`, `{"a":"b","b":"a"}`, `[{"a":"a"},{"b":"b","a":"b"}]`, `{"x":{"a":"b"},"y":{"b":"a"}}`, "$x", `"(a+)"`, `"2006-01-02"`,
+	// records of unequal width (for the row-wise encoders), the context itself in a union under a binding / eval
+	`[{"a":1,"b":2},{"a":3}]`, `[{"a":1,"b":2,"c":3},{"c":4},{}]`, `[[1,2,3],[4]]`, `(., 1)`, `(., .a)`, `"., .a"`, `". , 1"`, `. as $x | (., 1)`, `eval("., .a")`, `eval(". , 1")`}
 
 // Structured builds a random expression tree of the given depth over the full vocabulary.
 func Structured(r *rand.Rand, depth int) string {
